@@ -16,7 +16,7 @@ import datetime as dt
 import random
 
 from .. import gen, probes, simray
-from ..core import Check, jdigest, result_template
+from ..core import Check, HarnessError, jdigest, result_template, run_one_forked
 from ..run import cleanup, fmt_ts, history_digest, parse_ts, read_db
 from .common import drive, interleaving_key, note_abort, time_info, variant
 
@@ -161,6 +161,35 @@ class C10(Check):
                             "noise": rng.choice(["on", "on", "off"])})
         return {"members": members, "config": cfg, "plan": members[0]["plan"]}
 
+    @staticmethod
+    def _run_member(m):
+        tmp = result_template()
+        ctx = drive(m)
+        try:
+            aborted = note_abort(ctx, tmp)
+            snaps = {}
+            for sn in probes.of_kind("snap"):
+                st = {}
+                for aid, v in sn["targets"].items():
+                    st[aid] = hexes(v)
+                for aid, v in sn["sensors"].items():
+                    st[aid] = hexes(v)
+                snaps[sn["k"]] = st
+            rows = {}
+            if ctx.db_path:
+                try:
+                    for iso, aid, *vals in read_db(ctx.db_path, "select e.timestampISO, t.agent_id, t.pos_x_km, t.pos_y_km, t.pos_z_km, t.vel_x_km_p_sec, t.vel_y_km_p_sec, t.vel_z_km_p_sec "
+                                                                "from truth_ephemerides t join epochs e on e.julian_date = t.julian_date"):
+                        rows[(iso, aid)] = hexes(vals)
+                except Exception:  # noqa: BLE001,S110 - a run that aborted during build has no DB
+                    pass
+            # (plain lists: the result travels back as JSON, which has neither integer nor tuple keys)
+            return {"run": {"snaps": [[k, sorted(st.items())] for k, st in sorted(snaps.items())], "rows": [[list(kk), vv] for kk, vv in sorted(rows.items())],
+                            "aborted": aborted, "tags": m["tags"], "error": repr(ctx.error) if ctx.error else None},
+                    "interleaving": interleaving_key(), "retries": simray.STATE.stats["retries"], "digest": history_digest(ctx), "aborted_counters": dict(tmp["counters"])}
+        finally:
+            cleanup(ctx)
+
     def sample_view(self, case):
         t = case["config"]["time"]
         return {"start": t["start_timestamp"], "step": t["physics_step_sec"], "model": case["config"]["propagation"]["propagation_model"],
@@ -174,31 +203,21 @@ class C10(Check):
         inter = []
         digests = []
         for mi, m in enumerate(case["members"]):
-            ctx = drive(m)
-            try:
-                aborted = note_abort(ctx, res)
-                snaps = {}
-                for sn in probes.of_kind("snap"):
-                    st = {}
-                    for aid, v in sn["targets"].items():
-                        st[aid] = hexes(v)
-                    for aid, v in sn["sensors"].items():
-                        st[aid] = hexes(v)
-                    snaps[sn["k"]] = st
-                rows = {}
-                if ctx.db_path:
-                    try:
-                        for iso, aid, *vals in read_db(ctx.db_path, "select e.timestampISO, t.agent_id, t.pos_x_km, t.pos_y_km, t.pos_z_km, t.vel_x_km_p_sec, t.vel_y_km_p_sec, t.vel_z_km_p_sec "
-                                                                    "from truth_ephemerides t join epochs e on e.julian_date = t.julian_date"):
-                            rows[(iso, aid)] = hexes(vals)
-                    except Exception:  # noqa: BLE001,S110 - a run that aborted during build has no DB
-                        pass
-                runs.append({"snaps": snaps, "rows": rows, "aborted": aborted, "tags": m["tags"], "error": repr(ctx.error) if ctx.error else None})
-                inter.append(interleaving_key())
-                res["faults"]["task_retry"] = res["faults"].get("task_retry", 0) + simray.STATE.stats["retries"]
-                digests.append(history_digest(ctx))
-            finally:
-                cleanup(ctx)
+            # every member is a scenario run of its own: in a fresh fork, so that state kept at module or class level by one run (caches) cannot
+            # make the next one agree with it
+            payload = run_one_forked(self._run_member, m, self.per_run_timeout_s)
+            if not payload.get("ok"):
+                raise HarnessError(f"member {mi} {m['tags']}: {payload.get('error')}\n{payload.get('trace', '')}")
+            out_m = payload["result"]
+            for kk, vv in out_m["aborted_counters"].items():
+                res["counters"][kk] = res["counters"].get(kk, 0) + vv
+            rr = out_m["run"]
+            rr["snaps"] = {int(k): {int(a): v for a, v in st} for k, st in rr["snaps"]}
+            rr["rows"] = {(kk[0], int(kk[1])): vv for kk, vv in rr["rows"]}
+            runs.append(rr)
+            inter.append(out_m["interleaving"])
+            res["faults"]["task_retry"] = res["faults"].get("task_retry", 0) + out_m["retries"]
+            digests.append(out_m["digest"])
         base = runs[0]
         S, step, out, ncfg = time_info(case)
         compared = 0
